@@ -94,7 +94,7 @@ class ConfigManager(object):
             logger.debug("Detected config type: %s" % self._type_to_str(configtype))
             if configtype in self.TYPES:
                 logger.debug("Opening config for reading")
-                with open(path, 'r') as f:
+                with open(path, 'r', encoding='utf-8') as f:
                     data = f.read()
                 datadict = self.TYPES[configtype]().reverse(data)
                 return self.load_data(datadict)
@@ -119,7 +119,7 @@ class ConfigManager(object):
             return config_type
         else:
             logger.debug("Trying auto detect config type by parsing")
-            with open(config_path, 'r') as f:
+            with open(config_path, 'r', encoding='utf-8') as f:
                 data = f.read()
             for config_type, transform in self.TYPES.items():
                 config_type_str = self.TYPE_NAMES[config_type]
@@ -147,10 +147,10 @@ class ConfigManager(object):
         if dest is None:
             for ext, ftype in self.MAP_EXT.items():
                 if ftype == serialize_type:
-                    StorageTools.writeProfileData(profile_name, self.NAME_FILE_CONFIG + "." + ext, outputdata)
+                    StorageTools.writeProfileData(profile_name, self.NAME_FILE_CONFIG + "." + ext, outputdata.encode("utf-8"))
             for ext, ftype in self.MAP_EXT.items():
                 if ftype != serialize_type:
                     StorageTools.removeProfileData(profile_name, self.NAME_FILE_CONFIG + "." + ext)
         else:
-            with open(dest, 'w') as outputfile:
+            with open(dest, 'w', encoding='utf-8') as outputfile:
                 outputfile.write(outputdata)
